@@ -138,6 +138,8 @@ def build(spec: dict):
         bname = backing["name"].encode()
         bf_off = pos + spec.get("backing_name_gap", 0) * 8
         bf_size = len(bname)
+        if spec.get("backing_name_at_end") and cs - bf_size >= pos:
+            bf_off = cs - bf_size  # the name may sit anywhere in the first cluster: here it ends with the cluster
         pos = bf_off + bf_size
     if pos > cs:
         raise ValueError("header area does not fit the first cluster")
